@@ -3,7 +3,6 @@ import asyncio
 import collections
 import functools
 import io
-import operator
 import pathlib
 import stat
 import sys
@@ -771,7 +770,10 @@ class MemoryPathIO(AbstractPathIO):
                     if node is None or node.type != "dir":
                         cls.iter = iter(())
                     else:
-                        names = map(operator.attrgetter("name"), node.content)
+                        # entries as they are now: listing goes on while
+                        # other sessions add and remove entries, which
+                        # must not make it skip (or repeat) others
+                        names = [child.name for child in node.content]
                         paths = map(lambda name: path / name, names)
                         cls.iter = iter(paths)
                 try:
